@@ -303,7 +303,8 @@ func Sprint(value any) string {
 			if f == 0 {
 				return "0" // the product of 0 and -1 is a negative zero; it is still the number 0
 			}
-			return strconv.FormatFloat(f, 'f', -1, rv.Type().Bits())
+			// (64 bits also for a float32: its whole value is exact, and 1073741824 is not to be spelled 1073741800)
+			return strconv.FormatFloat(f, 'f', -1, 64)
 		}
 	}
 	return fmt.Sprint(value)
